@@ -4,10 +4,83 @@ Driver for stream `wire`: one op per line, one observation per line.
   putvaruint <dec>            -> <hex>
   readvaruint <hex>           -> ok <dec> <rest-hex> | err
   readvarbytes <max> <hex>    -> ok <hex> <rest-hex> | err
+  dec <codec> <hex>           -> ok rest=<n> enc=<hex> hash=<hex|-> v=<tokens> | err
+  enc <codec> <tokens…>       -> <hex> size=<n> | bad-value
+  txpaths <hex>               -> paths frombytes=<hash>/<size>|err stream=<hash>/<size>|err
 -/
 import NeoModel.Base.Proto
+import NeoModel.Base.Sha256
 import NeoModel.Model.Wire.VarUint
-open NeoModel NeoModel.Wire
+import NeoModel.Model.Wire.Text
+open NeoModel NeoModel.Wire NeoModel.Wire.Text
+
+def joinToks (t : List String) : String := " ".intercalate t
+
+/-- generic `dec` observation of one codec. -/
+def decObs {α : Type} (c : Codec α) (hash : α → Option Bytes) (shw : α → List String) (b : Bytes) : String :=
+  match c.dec b with
+  | none => "err"
+  | some (v, r) =>
+    let h := match hash v with
+      | some x => Hex.encode x
+      | none => "-"
+    s!"ok rest={r.length} enc={Hex.encode (c.enc v)} hash={h} v={joinToks (shw v)}"
+
+def encObs {α : Type} (c : Codec α) (p : Text.P α) (ts : List String) : String :=
+  match p ts with
+  | some (v, []) => s!"{Hex.encode (c.enc v)} size={c.size v}"
+  | _ => "bad-value"
+
+def txHash (t : Tx) : Bytes := Sha256.hash ((txBodyC p256).enc t.body)
+
+def stateRootHash (s : StateRoot) : Bytes :=
+  Sha256.hash ((Codec.seq Codec.byte (Codec.seq (Codec.uintLE 4) (Codec.fixed 32))).enc (s.version, s.index, s.root))
+
+def extensibleHash (e : Extensible) : Bytes :=
+  Sha256.hash ((Codec.seq (Codec.varBytes Generated.WireLimits.maxExtensibleCategorySize) (Codec.seq (Codec.uintLE 4)
+    (Codec.seq (Codec.uintLE 4) (Codec.seq (Codec.fixed 20) (Codec.varBytes Generated.WireLimits.payloadMaxSize))))).enc
+    (e.category, e.validStart, e.validEnd, e.sender, e.data))
+
+def decOp (name : String) (b : Bytes) : String :=
+  match name with
+  | "witness" => decObs witnessC (fun _ => none) showWitness b
+  | "cond" => decObs (condC p256 Generated.WireLimits.maxConditionNesting) (fun _ => none) showCond b
+  | "rule" => decObs (ruleC p256) (fun _ => none) showRule b
+  | "signer" => decObs (signerC p256) (fun _ => none) showSigner b
+  | "attr" => decObs attrC (fun _ => none) showAttr b
+  | "tx" => decObs (txC p256) (fun t => some (txHash t)) showTx b
+  | "header0" => decObs (headerC false) (fun h => some (headerHash Sha256.hash false h)) (showHeader false) b
+  | "header1" => decObs (headerC true) (fun h => some (headerHash Sha256.hash true h)) (showHeader true) b
+  | "block0" => decObs (blockC p256 false) (fun x => some (headerHash Sha256.hash false x.header)) (showBlock false) b
+  | "block1" => decObs (blockC p256 true) (fun x => some (headerHash Sha256.hash true x.header)) (showBlock true) b
+  | "stateroot" => decObs stateRootC (fun s => some (stateRootHash s)) showStateRoot b
+  | "extensible" => decObs extensibleC (fun e => some (extensibleHash e)) showExtensible b
+  | _ => "bad-op"
+
+def encOp (name : String) (ts : List String) : String :=
+  match name with
+  | "witness" => encObs witnessC pWitness ts
+  | "cond" => encObs (condC p256 Generated.WireLimits.maxConditionNesting) pCond ts
+  | "rule" => encObs (ruleC p256) pRule ts
+  | "signer" => encObs (signerC p256) pSigner ts
+  | "attr" => encObs attrC pAttr ts
+  | "tx" => encObs (txC p256) pTx ts
+  | "header0" => encObs (headerC false) (pHeader false) ts
+  | "header1" => encObs (headerC true) (pHeader true) ts
+  | "block0" => encObs (blockC p256 false) (pBlock false) ts
+  | "block1" => encObs (blockC p256 true) (pBlock true) ts
+  | "stateroot" => encObs stateRootC pStateRoot ts
+  | "extensible" => encObs extensibleC pExtensible ts
+  | _ => "bad-op"
+
+def txPathsObs (b : Bytes) : String :=
+  let fb := match txFromBytes Sha256.hash p256 b with
+    | some (_, h, sz) => s!"{Hex.encode h}/{sz}"
+    | none => "err"
+  let st := match txFromStream Sha256.hash p256 b with
+    | some (_, h, sz, []) => s!"{Hex.encode h}/{sz}"
+    | _ => "err"
+  s!"paths frombytes={fb} stream={st}"
 
 def step (s : Unit) (ws : List String) : Unit × String :=
   match ws with
@@ -30,6 +103,15 @@ def step (s : Unit) (ws : List String) : Unit × String :=
       | some (v, r) => (s, s!"ok {Hex.encode v} {Hex.encode r}")
       | none => (s, "err")
     | _, _ => (s, "bad-op")
+  | ["dec", name, h] =>
+    match Hex.decode h with
+    | some bs => (s, decOp name bs)
+    | none => (s, "bad-op")
+  | "enc" :: name :: ts => (s, encOp name ts)
+  | ["txpaths", h] =>
+    match Hex.decode h with
+    | some bs => (s, txPathsObs bs)
+    | none => (s, "bad-op")
   | _ => (s, "bad-op")
 
 def main : IO Unit := Proto.run () step
